@@ -237,3 +237,67 @@ def histories(c0: int, o0: int, c1: int, o1: int, c2: int, o2: int, k: int) -> b
     """
     P = fast.pick
     return done(fast.native(_history, P(c0, 4), P(o0, 6), P(c1, 4), P(o1, 6), P(c2, 4), P(o2, 6), P(k, 4)))
+
+
+# ------------------------------------------------------------------ the same statement text, before and after the variable changes
+MODS = ["unset", "set_other_value", "none", "set_on_other_connection", "unset_then_set", "set_other_case"]
+USES = ["select $v1 as x from t1", "select a from t1 where a = $V1", "insert into t2 values ($v1)"]
+
+
+def _same_text_twice(mi: int, ui: int, other_cursor: bool) -> bool:
+    eng = std_engine()
+    fs = instance(eng)
+    A, B = fs.connect(database="db1", schema="s1"), fs.connect(database="db1", schema="s1")
+    c1, c2, cb = A.cursor(), A.cursor(), B.cursor()
+    c1.execute("set v1 = 5")
+    text = USES[ui]
+
+    def run(cur):
+        base = len(eng.log)
+        try:
+            cur.execute(text)
+        except snowflake.connector.errors.ProgrammingError as e:
+            return ("error", e.msg or "", len(eng.log) - base)
+        return ("ok", " ".join(str(q) for _c, q in eng.log[base:]), len(eng.log) - base)
+
+    first = run(c1)
+    if first[0] != "ok" or "5" not in first[1]:
+        return False
+    mod = MODS[mi]
+    want = "5"
+    if mod == "unset":
+        c2.execute("unset v1")
+        want = None
+    elif mod == "set_other_value":
+        c2.execute("set v1 = 9")
+        want = "9"
+    elif mod == "set_on_other_connection":
+        cb.execute("set v1 = 9")
+    elif mod == "unset_then_set":
+        c1.execute("unset v1")
+        c2.execute("set v1 = 3")
+        want = "3"
+    elif mod == "set_other_case":
+        c2.execute("SET V1 = 7")
+        want = "7"
+    second = run(c2 if other_cursor else c1)
+    if want is None:
+        return second[0] == "error" and "Session variable '$V1' does not exist" in second[1] and second[2] == 0
+    return second[0] == "ok" and want in second[1] and ("5" not in second[1] or want == "5")
+
+
+@ob(
+    "C15.same_text_after_the_variable_changed",
+    encodes=["fakesnow.cursor.FakeSnowflakeCursor.execute/_inline_variables", "fakesnow.variables.Variables (state kept between statements)"],
+    bounds="SET v1 = 5; a statement using $v1 (3 forms); then one of {UNSET, SET to another value, nothing, SET on ANOTHER connection, UNSET then SET, SET in "
+    "another letter case}; then the byte-identical statement again on the same or another cursor of the connection: it uses the value now in force, or "
+    "raises the undefined-variable error without reaching the engine",
+    timeout=(200, 400),
+    stubs=["K1/K2 vf.duckstub.Engine"],
+)
+def same_text_twice(mi: int, ui: int, other_cursor: bool) -> bool:
+    """
+    pre: 0 <= mi < len(MODS) and 0 <= ui < len(USES)
+    post: _
+    """
+    return done(fast.native(_same_text_twice, fast.pick(mi, len(MODS)), fast.pick(ui, len(USES)), bool(fast.pick(other_cursor, 2))))
